@@ -36,6 +36,7 @@ import Driver.FdWorld
 import Driver.Alac
 import Driver.AbsWrite
 import Driver.Small4
+import Driver.Sd2
 import Driver.CrossType
 import Driver.AdpcmEnc
 import Driver.AbsTwin
@@ -121,6 +122,7 @@ def main (args : List String) : IO UInt32 := do
   | "alac" :: rest => Driver.Alac.cmd rest
   | "abs-write" :: rest => AbsWriteDriver.cmd rest
   | "small4" :: rest => Driver.Small4.cmd rest
+  | "sd2" :: rest => Driver.Sd2.cmd rest
   | "crosstype" :: rest => CrossTypeDriver.cmd rest
   | "adpcmenc" :: rest => Driver.AdpcmEnc.cmd rest
   | "abs-twin" :: rest => AbsTwinDriver.cmd rest
